@@ -4,11 +4,11 @@ package zzverif
 // transport, replayed through the Lean model, shrunk and stored as a replay).
 
 import (
-	"net/url"
 	"crypto/sha256"
 	"encoding/hex"
 	"encoding/json"
 	"net/http"
+	"net/url"
 	"sort"
 	"strconv"
 	"strings"
@@ -92,8 +92,8 @@ type History struct {
 	// TZ: IANA name of the zone the process is in while this history runs ("" = a fixed UTC+9 zone). HTTP-dates are
 	// GMT whatever the zone of the cache's process is, and a time library resolves the "GMT" of the obsolete rfc850
 	// layout against the local zone's abbreviation table
-	TZ string `json:"tz,omitempty"`
-	Ops          []Op   `json:"ops"`
+	TZ  string `json:"tz,omitempty"`
+	Ops []Op   `json:"ops"`
 }
 
 func (h *History) JSON() string {
